@@ -148,12 +148,71 @@ theorem propagateLoop_tolerance (cs : List (Constraint α)) (forms : List (Optio
         · rw [ih]; exact stepConstraint_tol _ _ _
       · exact ih _ _ _
 
+theorem roundStep_tol (a : Analyzer α) (d : DomVar α) : (a.roundStep d).tolerance = a.tolerance := by
+  unfold Analyzer.roundStep
+  split
+  · split <;> rfl
+  · rfl
+
+theorem roundIntegerRanges_tol : ∀ (domain : List (DomVar α)) (an : Analyzer α),
+    (an.roundIntegerRanges domain).tolerance = an.tolerance
+  | [], an => rfl
+  | d :: domain, an => by
+    have ih := roundIntegerRanges_tol domain (an.roundStep d)
+    simp only [Analyzer.roundIntegerRanges, List.foldl_cons] at ih ⊢
+    rw [ih, roundStep_tol]
+
 theorem enforceable_tol (an : Analyzer α) (domain : List (DomVar α)) :
     (an.enforceable domain).tolerance = an.tolerance := by
   unfold Analyzer.enforceable
   split
   · simp [Analyzer.fromDomain]
-  · rfl
+  · exact roundIntegerRanges_tol domain an
+
+section
+open BoundsSem
+variable {K : Type} [Field K] [LinearOrder K] [IsStrictOrderedRing K] [FloorRing K]
+
+theorem roundStep_inBox {ρ : String → K} (tol : K) (htol0 : 0 ≤ tol) (an : Analyzer (Ext K)) (d : DomVar (Ext K))
+    (htol : an.tolerance = .fin tol) (hd : InDomain d.ty (ρ d.name)) (hb : InBox ρ an.variableBounds) :
+    InBox ρ (an.roundStep d).variableBounds := by
+  unfold Analyzer.roundStep
+  cases hty : d.ty with
+  | int lo hi =>
+    simp only []
+    cases hg : AList.get? an.variableBounds d.name with
+    | none => exact hb
+    | some b =>
+      intro n
+      simp only [varBounds_insert]
+      split
+      · rename_i h; subst h
+        rw [hty] at hd
+        obtain ⟨k, hk, _, _⟩ := hd
+        have hk' : ρ d.name = (k : K) := by simpa using hk
+        have hm : Mem (ρ d.name) b := by
+          have := hb d.name; simpa [Analyzer.varBounds, hg] using this
+        rw [hk'] at hm ⊢
+        rw [htol]
+        exact ⟨LB_ceil_sub htol0 hm.1, UB_floor_add htol0 hm.2⟩
+      · exact hb n
+  | bool => exact hb
+  | real lo hi => exact hb
+  | nnreal lo hi => exact hb
+
+/-- rounding the stored range of the integer variables keeps every in-domain point of the box in the box. -/
+theorem roundIntegerRanges_inBox {ρ : String → K} (tol : K) (htol0 : 0 ≤ tol) :
+    ∀ (domain : List (DomVar (Ext K))) (an : Analyzer (Ext K)), an.tolerance = .fin tol →
+    (∀ d ∈ domain, InDomain d.ty (ρ d.name)) → InBox ρ an.variableBounds →
+    InBox ρ (an.roundIntegerRanges domain).variableBounds
+  | [], an, _, _, hb => hb
+  | d :: domain, an, htol, hd, hb => by
+    have ih := roundIntegerRanges_inBox tol htol0 domain (an.roundStep d) (by rw [roundStep_tol]; exact htol)
+      (fun d' hd' => hd d' (List.mem_cons_of_mem _ hd'))
+      (roundStep_inBox tol htol0 an d htol (hd d (List.mem_cons_self ..)) hb)
+    simpa only [Analyzer.roundIntegerRanges, List.foldl_cons] using ih
+
+end
 
 end BoundsProofs
 end Rooc
